@@ -17,7 +17,7 @@ NOTE = ("Trusted base: TLC; the Python abstraction layer (bytes <-> stem ranks, 
 
 SPECIFIC = {
  "C01": "invariants PageSet/Refines on the lockstep model; clauses C01.pages/.crawled/.counts/.report/.nodup compare the abstract page-insertion semantics applied to the state the implementation itself reports with what it reports afterwards",
- "C02": "invariants Structure (TstInv)/Findable/DfsComplete; on real files: TstInv on the decoded blocks after every request, findable set = pre + named, three access paths over a probe grid incl. absent LRUs, stems at block-payload multiples and raw bytes",
+ "C02": "invariants Structure (TstInv)/Findable/DfsComplete, also over every insertion order of five sibling stems (MC_bst); on real files: TstInv on the decoded blocks after every request, findable set = pre + named, three access paths over a probe grid incl. absent LRUs, stems at block-payload multiples and raw bytes",
  "C03": "invariant LinkSymmetry; clauses C03.out/.in/.count/.iter/.degree over histories with repeats, self links, source-is-target, empty target lists",
  "C04": "invariants Resolution/OneIdPerPrefix (MC_core, MC_we); clauses C04.edit/.refuse/.resolve/.prefix/.byprefix over a probe grid of present, partially present and absent LRUs, queries issued with locality",
  "C05": "invariant WePagesInv (block traversal = declarative page set, any prefix order); relational clauses C05.iff/.nodup/.marks/.crawledonly/.partition between reported page sets and reported resolution",
@@ -26,12 +26,12 @@ SPECIFIC = {
  "C08": "invariant WeLinksInv (7 switch combinations); relational clauses C08.pagelinks/.once/.cited/.citing/.degree/.membership",
  "C09": "invariant PaginationInv (every page size 1..n+1, every resume point, crawled-only on/off); PagSession/MC_pag: a session interleaved with page insertions in every possible way (TokenValid, NoRepeat, NothingSkipped, NoInvention, ExactSize, Ordered); session clauses with page insertions between calls, exact prediction of every answer and token (bind.pag); Token/MC_token: encode/decode round trip for every path up to 9 moves, rows from the real token helpers (paths up to 90 moves) judged by TLC",
  "C10": "invariant PagLinksInv; session clauses C10.resume/.size/.once/.subset/.union/.token, exact prediction bind.pagl",
- "C11": "reopen is a stutter of the spec; lockstep twin that is never closed (C11.twin.*), C11.same/.answers on every reopen, C11.clear against a real fresh index, overwrite=True re-creation",
- "C12": "invariants IdsBounded/Monotone; C12.fresh judged against the largest id the trace has seen issued (survives deletions and reopen), C12.distinct, C12.shared; reopen-right-after-creation pattern",
+ "C11": "DoReopen/DoClear are requests of the lockstep model (MC_life, action property LifeCycle) and its behaviours are replayed into the real code; lockstep twin that is never closed (C11.twin.*), C11.same/.answers on every reopen, C11.clear against a real fresh index, overwrite=True re-creation",
+ "C12": "invariants IdsBounded/Monotone (also across reopen and clear in MC_life); histories issuing exactly 255/256 ids before close, reopen, create; C12.fresh judged against the largest id the trace has seen issued (survives deletions and reopen), C12.distinct, C12.shared; reopen-right-after-creation pattern",
  "C13": "invariants FlagInv/HierarchyInv (pruned traversal = declarative children); relational clauses C13.parents/.children",
  "C14": "every query is UNCHANGED store in the spec; on the real code SHA-256 of both stores around every read-only request over an argument grid (absent LRUs, unknown webentities, wrong prefixes, bad tokens, forgotten rules)",
  "C15": "both back-ends validated against the same deterministic spec and against each other step by step (results, enumerations, touched blocks, answers); mmap reader probed right after each request",
- "C16": "ALL interleavings of 2-3 generators model-checked (MC_coop, MC_coopnet; spec mutants show the lost update); every next() of the real generators (crawl, rule, page, cited/citing, child, page-link, fast and slow network, most-linked queries) validated against TraphCoop!RunGen; C16.final/.sym/.bounds",
+ "C16": "ALL interleavings of 2-3 generators model-checked (MC_coop, MC_coopnet; spec mutants show the lost update); every next() of the real generators (crawl, rule, page, cited/citing, child, page-link, fast and slow network, most-linked queries) validated against TraphCoop!RunGen; C16.final/.sym; C16.bounds against intersection/union/stable witnesses of the answers TLC computes for every moment of each query's execution; known findings F11, F12 have their own clauses",
  "C17": "the whole LRU grammar is the state space of MC_var, every law an invariant; rows from lru_variations / expand_prefix (fresh and long-lived index) / automatic creation judged against the token-level definition",
  "C18": "CrashSafe: every cut of every request's write list in every small history (MC_crash); every cut (block and byte granularity) of real write logs materialized and reopened by the real code, rows judged by TLC (CrashRows)",
  "C19": "invariant Accounting and action property Monotone; clauses C19.trie/.links/.len/.readd/.metrics with stems at 75..148 bytes and exact multiples; unreferenced blocks via TstInv",
